@@ -804,7 +804,10 @@ class QueryBuilder(Selectable, Term):  # type:ignore[misc]
         else:
             raise QueryException("Unsupported update_field")
 
-        if update_value is not None:
+        if isinstance(update_value, Node):
+            # an expression (e.g. field + 1) is rendered as such, not recorded as a parameter value
+            self._on_conflict_do_updates.append((field, update_value))
+        elif update_value is not None:
             self._on_conflict_do_updates.append((field, ValueWrapper(update_value)))
         else:
             self._on_conflict_do_updates.append((field, None))
